@@ -2,6 +2,7 @@ package engines
 
 import (
 	"fmt"
+	"sort"
 	"strings"
 
 	"github.com/go-text/typesetting/di"
@@ -112,6 +113,7 @@ func cmapSample(ft *font.Font, n int) []rune {
 		r, _ := it.Char()
 		all = append(all, r)
 	}
+	sort.Slice(all, func(i, j int) bool { return all[i] < all[j] }) // some cmaps iterate over a Go map
 	if len(all) <= n {
 		return all
 	}
